@@ -196,6 +196,11 @@ func (s *Sim) auxClient(name string) *clientState {
 func (s *Sim) runFinale() {
 	s.finale, s.noFaults = true, true
 	s.trace("finale")
+	if s.dir != nil && s.dir.phase < 9 {
+		// the workload ended before the directed plan did: the plan is over
+		s.dir.phase, s.dir.allowed = 9, nil
+		s.probe("directed-plan-cut-short-by-end-of-workload")
+	}
 	if s.partitioned {
 		s.heal()
 	}
